@@ -628,6 +628,11 @@ class S:
     def reshape(self, *shape):
         return np.array(self, dtype=object).reshape(*shape)
 
+    def __getitem__(self, idx):
+        # a NumPy scalar can be indexed like a 0-d array (x[...], x[..., None], x[()]); anything else raises as NumPy does
+        r = np.array(self, dtype=object)[idx]
+        return r.item() if isinstance(r, np.ndarray) and r.shape == () else r
+
     def squeeze(self, *a): return self
     def copy(self): return self
     def astype(self, *a, **k): return self
